@@ -1110,7 +1110,7 @@ func verifC12Submit(T int) {
 			admitted = append(admitted, pick[t])
 		}
 	}
-	vrt.Cover("both-admitted", len(admitted) == T)
+	vrt.Cover("both-admitted", len(admitted) >= 2) // no three members of the family are pairwise compatible
 	vrt.Cover("one-refused", len(admitted) < T)
 	vrt.Assert(len(admitted) >= 1, "not-every-request-refused")
 	// the final state equals a node that admitted exactly these, one at a time, in some order
